@@ -8,8 +8,22 @@ use stam::*;
 
 pub const ID_TOKENS: usize = 10;
 
+/// C03 only (set by its Ctx::new): the ids of tokens 4 and 5 begin like a temporary id of their own
+/// kind without being one ("!Ax4", "!Rx5", ...): legal public identifiers that must resolve like any other
+pub static BANG_NAMES: std::sync::atomic::AtomicBool = std::sync::atomic::AtomicBool::new(false);
+fn bang(t: i64) -> bool {
+    (t == 4 || t == 5) && BANG_NAMES.load(std::sync::atomic::Ordering::Relaxed)
+}
+fn name(lower: char, upper: char, t: i64) -> String {
+    if bang(t) {
+        format!("!{}x{}", upper, t)
+    } else {
+        format!("{}{}", lower, t)
+    }
+}
+
 pub fn rid(t: i64) -> String {
-    format!("r{}", t)
+    name('r', 'R', t)
 }
 /// token of the dataset the library creates when data names no (resolvable) set
 pub const DEFAULT_SET_TOKEN: i64 = 77;
@@ -17,25 +31,36 @@ pub fn sid(t: i64) -> String {
     if t == DEFAULT_SET_TOKEN {
         "default-annotationset".to_string()
     } else {
-        format!("s{}", t)
+        name('s', 'S', t)
     }
 }
 pub fn aid(t: i64) -> String {
-    format!("a{}", t)
+    name('a', 'A', t)
 }
 pub fn kid(t: i64) -> String {
-    format!("k{}", t)
+    name('k', 'K', t)
 }
 pub fn did(t: i64) -> String {
-    format!("d{}", t)
+    name('d', 'D', t)
 }
 fn tok_of(id: Option<&str>, prefix: char) -> Sx {
     match id {
         Some("default-annotationset") => Sx::A(DEFAULT_SET_TOKEN),
-        Some(s) if s.starts_with(prefix) => s[1..].parse::<i64>().map(Sx::A).unwrap_or(Sx::A(-3)),
+        Some(s) if s.starts_with('!') && s.len() > 3 && s[1..].starts_with(prefix.to_ascii_uppercase()) && s[2..].starts_with('x') => {
+            s[3..].parse::<i64>().ok().filter(|t| bang(*t)).map(Sx::A).unwrap_or(Sx::A(-3))
+        }
+        Some(s) if s.starts_with(prefix) => s[1..].parse::<i64>().ok().filter(|t| !bang(*t)).map(Sx::A).unwrap_or(Sx::A(-3)),
         Some(_) => Sx::A(-3),
         None => Sx::A(-1),
     }
+}
+
+/// every by-handle reference (1 h) at the top level of a removal becomes (2 h)
+fn temp_refs(op: Sx) -> Sx {
+    l(op.list().iter().map(|x| match x {
+        Sx::L(v) if v.len() == 2 && v[0].int() == 1 => l(vec![a(2), v[1].clone()]),
+        other => other.clone(),
+    }).collect())
 }
 
 /// text of a resource: determined by its length (mixed 1-4 byte codepoints)
@@ -101,6 +126,15 @@ fn set_item<'a>(x: &Sx) -> BuildItem<'a, AnnotationDataSet> {
         BuildItem::Id(sid(x.nth(1).int()))
     } else {
         BuildItem::Handle(AnnotationDataSetHandle::new(x.nth(1).int() as usize))
+    }
+}
+/// reference kind 2 = by temporary id ("!S3") when the item is alive, else as kind 1 (by handle): a
+/// temporary id of a dead slot is just an unknown id, which the model does not distinguish
+fn temp_set<'a>(store: &AnnotationStore, x: &Sx) -> BuildItem<'a, AnnotationDataSet> {
+    if x.nth(0).int() == 2 && store.dataset(AnnotationDataSetHandle::new(x.nth(1).int() as usize)).is_some() {
+        BuildItem::Id(format!("!S{}", x.nth(1).int()))
+    } else {
+        set_item(x)
     }
 }
 fn key_item<'a>(x: &Sx) -> BuildItem<'a, DataKey> {
@@ -193,12 +227,19 @@ pub fn apply(store: &mut AnnotationStore, op: &Sx) -> Sx {
             outcome(guard(|| store.annotate(b)), |h| h.as_usize())
         }
         4 => {
-            let r = if op.nth(1).nth(0).int() == 0 {
-                let id = aid(op.nth(1).nth(1).int());
+            let rf = op.nth(1);
+            let r = if rf.nth(0).int() == 0 {
+                let id = aid(rf.nth(1).int());
                 guard(|| store.remove_annotation(id.as_str()))
             } else {
-                let h = AnnotationHandle::new(op.nth(1).nth(1).int() as usize);
-                guard(|| store.remove_annotation(h))
+                let h = AnnotationHandle::new(rf.nth(1).int() as usize);
+                if rf.nth(0).int() == 2 && store.annotation(h).is_some() {
+                    // by temporary id (a live item only: for a dead one it is an unknown id, see temp_ref)
+                    let id = format!("!A{}", h.as_usize());
+                    guard(|| store.remove_annotation(id.as_str()))
+                } else {
+                    guard(|| store.remove_annotation(h))
+                }
             };
             match r {
                 None => l(vec![a(-1)]),
@@ -208,12 +249,28 @@ pub fn apply(store: &mut AnnotationStore, op: &Sx) -> Sx {
         }
         5 | 6 => {
             let strict = op.nth(3).int() != 0;
-            let set = set_item(op.nth(1));
+            let set = temp_set(store, op.nth(1));
+            let setlive = |store: &AnnotationStore| -> Option<AnnotationDataSetHandle> {
+                let x = op.nth(1);
+                if x.nth(0).int() == 0 { None } else { Some(AnnotationDataSetHandle::new(x.nth(1).int() as usize)) }
+            };
             let r = if op.nth(0).int() == 5 {
-                let d = data_item(op.nth(2));
+                let x = op.nth(2);
+                let d = match (x, setlive(store)) {
+                    (Sx::L(_), Some(sh)) if x.nth(0).int() == 2 && store.dataset(sh).map(|s| s.annotationdata(AnnotationDataHandle::new(x.nth(1).int() as usize)).is_some()).unwrap_or(false) => {
+                        BuildItem::Id(format!("!D{}", x.nth(1).int()))
+                    }
+                    _ => data_item(x),
+                };
                 guard(|| store.remove_data(set, d, strict))
             } else {
-                let k = key_item(op.nth(2));
+                let x = op.nth(2);
+                let k = match (x, setlive(store)) {
+                    (Sx::L(_), Some(sh)) if x.nth(0).int() == 2 && store.dataset(sh).map(|s| s.key(DataKeyHandle::new(x.nth(1).int() as usize)).is_some()).unwrap_or(false) => {
+                        BuildItem::Id(format!("!K{}", x.nth(1).int()))
+                    }
+                    _ => key_item(x),
+                };
                 guard(|| store.remove_key(set, k, strict))
             };
             match r {
@@ -230,7 +287,12 @@ pub fn apply(store: &mut AnnotationStore, op: &Sx) -> Sx {
             }
         }
         7 => {
-            let it = res_item(op.nth(1));
+            let x = op.nth(1);
+            let it = if x.nth(0).int() == 2 && store.resource(TextResourceHandle::new(x.nth(1).int() as usize)).is_some() {
+                BuildItem::Id(format!("!R{}", x.nth(1).int()))
+            } else {
+                res_item(x)
+            };
             match guard(|| store.remove_resource(it)) {
                 None => l(vec![a(-1)]),
                 Some(Err(_)) => l(vec![a(0)]),
@@ -238,7 +300,7 @@ pub fn apply(store: &mut AnnotationStore, op: &Sx) -> Sx {
             }
         }
         _ => {
-            let it = set_item(op.nth(1));
+            let it = temp_set(store, op.nth(1));
             match guard(|| store.remove_dataset(it)) {
                 None => l(vec![a(-1)]),
                 Some(Err(_)) => l(vec![a(0)]),
@@ -705,7 +767,15 @@ impl Shadow {
             }
             return l(vec![a(3), id, target, l(datas)]);
         }
-        // removals
+        // removals (a handle reference is sometimes given as the temporary id)
+        let op = self.gen_removal(rng);
+        if rng.chance(1, 3) {
+            return temp_refs(op);
+        }
+        op
+    }
+
+    fn gen_removal(&self, rng: &mut Rng) -> Sx {
         let la = self.live_anns();
         let ls = self.live_sets();
         let lr = self.live_res();
